@@ -19,7 +19,7 @@ from ..harness import close
 from ..layout import Layout
 from ..netgen import MODEL_PARAMS, all_specs, harness_specs
 from ..parallel import run_shards, shards_of
-from ..spec import NetSpec, build
+from ..spec import NetSpec, build, build_edited
 from .. import valgen
 from .c04 import INIT_OPTS
 
@@ -90,6 +90,27 @@ def check_spec(spec: NetSpec, label, st: Stats, plan):
                 for sig, msg in consistency(spec, val, o, P, opts):
                     problems.append((sig, f"{sym} compact={compact} posinit={opts}: {msg} at {vlabel}",
                                      dict(case, val={f"{k[0]}.{k[1]}": v for k, v in val.items()})))
+    # the same network reached by editing another, already stepped network in place (non-initial state)
+    base = [(l_, v) for l_, v in valgen.vectors(spec, 0)]
+    for emode in ("links", "attachments", "replace"):
+        sym, compact = plan["variants"][0]
+        st.inc("transitions", 4)
+        case = {"spec": spec.describe(), "config": label, "P": P, "sym": sym, "compact": compact, "opts": False, "edited": emode}
+        try:
+            eng = env.casadi_engine(sym)
+            built = build_edited(spec, P, emode, engine=eng)
+            built.net.step(engine=eng, **P)
+            F = eng.to_function(built.net, compact=compact, more_out=True, **P)
+            outs = eval_layout(F, Layout(spec, compact=compact, more_out=True), [v for _, v in base])
+        except Exception as e:  # noqa: BLE001
+            problems.append((f"C05/exception/{exc_site(e)}/{type(e).__name__}", f"{sym} network edited in place ({emode}): "
+                             f"{exc_text(e)}", case))
+            continue
+        st.inc("executions", len(base))
+        for (vlabel, val), o in zip(base, outs):
+            for sig, msg in consistency(spec, val, o, P, False):
+                problems.append((sig, f"{sym} compact={compact}, network edited in place ({emode}) after a step: {msg} at {vlabel}",
+                                 dict(case, val={f"{k[0]}.{k[1]}": v for k, v in val.items()})))
     return problems
 
 
